@@ -42,12 +42,21 @@ _MNR_PATTERN = re.compile("^\\d+$")
 
 def _decode_font_stack(value: typing.Optional[str]) -> \
   typing.Optional[typing.Tuple[typing.Union[str, styles.GenericFontFamilyType]]]:
-  return value if value is None else tuple(utils.parse_font_families(value))
+  if value is None:
+    return None
+
+  if not isinstance(value, str):
+    raise ValueError(f"Invalid font_stack '{value}' value. Expect: a list of font families as a string.")
+
+  return tuple(utils.parse_font_families(value))
 
 def _decode_start_tc(value: typing.Optional[str]) -> typing.Optional[str]:
   if value is None:
     return None
-  
+
+  if not isinstance(value, str):
+    raise ValueError(f"Invalid start_tc '{value}' value. Expect: 'TCP' or 'HH:MM:SS:FF'.")
+
   if value.upper() == "TCP":
     return "TCP"
 
